@@ -59,7 +59,7 @@ CHECKS.update({
 })
 CHECKS.update({
  "C05": ("exploration", "offline linearizability checking (porcupine v1.3.0, per-key partition, single-register model) of client histories recorded at the API boundary under forced rotations, live/driven compactions and seeded delays at tag-guarded hook points",
-         "Histories of 3..6 clients on 2..5 keys with unique written values are recorded with one monotonic clock while flushes and compactions overlap the calls (tiny memstore, 50us..1ms ticker or a chaos goroutine, delays between critical sections and one inside the reflection's critical section) and checked with porcupine; a checker timeout is inconclusive. Every 10th history has a rotation that fails (a directory planted where a coming WAL file would be created): mutations that returned an error stay in the history as open may-have-taken-effect calls (set-valued register state), Gets must keep succeeding and the history must stay linearizable. Exploration over observed interleavings.",
+         "Histories of 3..6 clients on 2..5 keys with unique written values are recorded with one monotonic clock while flushes and compactions overlap the calls (tiny memstore, 50us..1ms ticker or a chaos goroutine, delays between critical sections and one inside the reflection's critical section) and checked with porcupine; a checker timeout is inconclusive. Every 10th history has a rotation that fails (a directory planted where a coming WAL file would be created): mutations that returned an error stay in the history as open may-have-taken-effect calls (set-valued register state), Gets must keep succeeding and the history must stay linearizable. Every second history has a read storm (4..8 extra Get-only clients that never yield; half of them over 8..11 keys) so that lookups overlap inside the same table readers. Exploration over observed interleavings.",
          "only interleavings that actually occurred are judged; the evidence counts flushes/compactions inside the client window and overlapping call pairs", "§3 C05", "E3"),
  "C18": ("exploration", "Go race detector (-race build of the child, halt_on_error=0, reports parsed and de-duplicated by innermost go-sstables frames) + sequential-answer oracle over three concurrent workloads",
          "One SimpleDB handle (8 goroutines, own, shared and each other's keys with self-describing values, rotations and compactions running or everything in one memstore; in every other run callbacks at two named points make the flusher's table publication and the compactor's swap start within nanoseconds of each other, every run is closed while calls are in flight (a third of the way through, or during a tail of Puts that only Close ends), two shared keys hold 40..70 KiB values), one SSTableReader (8..16 goroutines of Get/Contains/range scans; one table in three without a bloom filter file) and one MMapReader (ReadNextAt/SeekNext) are exercised in the race-detector build across seeds and GOMAXPROCS {2,4,16}; any report touching go-sstables or the harness, any abnormal exit, any result differing from the sequential answer and any state-based deadlock (a client blocked inside the library while no library goroutine can run, read off the watchdog's goroutine dump) is a violation.",
@@ -75,7 +75,7 @@ CHECKS.update({
 })
 CHECKS.update({
  "C07": ("fault_enumeration", "reference-model monitor (appended sequence vs fresh Replay) + offline checkers over strace logs of WAL-only sessions: crash image at every mutating call -> Replay in a fresh process must give a prefix containing all acknowledged sync appends; fsync-ordering monitor over write/fsync events",
-         "(a) seeded append/rotate programs over limits {9..1MiB}, buffers and compressions (every 20th through the direct-I/O writer with 120..320 appends per program so that single files are flushed many times; base paths handed over in spellings that are not in cleaned form, another spelling for the fresh replayer; every 10th program shares its process with two other logs appended to from goroutines of their own) are replayed through the still-open log object in between and by the same object and a fresh replayer at the end; (b) WAL-only sessions run under strace with small writer buffers so that flushes cut records, every boundary between mutating system calls is materialised and replayed by a fresh process; (c) the same log is scanned for 'write reached the file and the file was fsynced before AppendSync returned'; (d) programs whose appender meets a failing write(2) (RLIMIT_FSIZE in a sub-process) and goes on appending, retrying and rotating: replay must succeed and deliver the attempts minus failed ones as a gap-free prefix containing every acknowledged sync append.",
+         "(a) seeded append/rotate programs over limits {9..1MiB}, buffers and compressions (every 20th through the direct-I/O writer with 120..320 appends per program so that single files are flushed many times; base paths handed over in spellings that are not in cleaned form, another spelling for the fresh replayer; every 10th program shares its process with two other logs appended to from goroutines of their own; two programs in five replay through a reader factory with a 64 B / 1 KiB read buffer, i.e. records larger than the reader's buffer) are replayed through the still-open log object in between and by the same object and a fresh replayer at the end; (b) WAL-only sessions run under strace with small writer buffers so that flushes cut records, every boundary between mutating system calls is materialised and replayed by a fresh process; (c) the same log is scanned for 'write reached the file and the file was fsynced before AppendSync returned'; (d) programs whose appender meets a failing write(2) (RLIMIT_FSIZE in a sub-process) and goes on appending, retrying and rotating: replay must succeed and deliver the attempts minus failed ones as a gap-free prefix containing every acknowledged sync append.",
          "kill -9 model; nil and empty records are both length-0 payloads for the oracle", "§3 C07", "E1+E2"),
  "C10": ("fault_enumeration", "nested crash-image enumeration: level-1 images from traced sessions, recovery of each traced again, level-2 (sampled level-3) image at every mutating call of Open incl. unlink-order permutations; oracle = read-all after the uninterrupted recovery",
          "For sampled crash images of real sessions (per phase, incl. pending flagged compactions and non-empty WALs) the recovery itself runs under strace; after every mutating system call of that recovery (and for every subset of each listing-ordered unlink run) a fresh Open must succeed and read exactly what the uninterrupted recovery reads. Exhaustive over the crash points of the traced recoveries; level-1 images are sampled.",
